@@ -777,3 +777,345 @@ Proof.
 Qed.
 
 End Median.
+
+(* ====================================================================================== *)
+(* 5. plain numbers                                                                        *)
+Section Numbers.
+Variable ndims : nat.
+Definition nvals (nl : list num) : list value := map VS (map VN nl).
+
+Lemma udim_nums nl : udim ndims (vzero ndims) (map VN nl).
+Proof. induction nl; constructor; auto. Qed.
+Lemma noq_nums nl : existsb is_q (map VN nl) = false.
+Proof. induction nl; auto. Qed.
+Lemma mag_nums nl : map mag (map VN nl) = map toQ nl.
+Proof. rewrite map_map. reflexivity. Qed.
+Lemma qexact_nums nl : Forall exact nl -> Forall qexact (map VN nl).
+Proof. intro H. induction H; constructor; auto. Qed.
+Lemma qcanon_nums nl : Forall canonical nl -> Forall qcanon (map VN nl).
+Proof. intro H. induction H; constructor; auto. Qed.
+
+Theorem sum_numbers nl : Forall exact nl -> Forall canonical nl ->
+  exists r, array_sum ndims (nvals nl) = Ok (VS (VN r))
+    /\ toQ r == Qsum (map toQ nl) /\ canonical r /\ exact r.
+Proof.
+  intros E Cn. destruct nl as [|x l].
+  - exists (NInt 0). split; [reflexivity|]. split; [reflexivity|]. split; [exact I|reflexivity].
+  - destruct (sum_spec ndims (VN x) (map VN l) (vzero ndims) (udim_nums (x :: l))
+                (qexact_nums _ E) (qcanon_nums _ Cn)) as (r & H & _ & M & Cr & Er & Ir).
+    change (VN x :: map VN l) with (map VN (x :: l)) in *.
+    rewrite noq_nums in Ir. rewrite mag_nums in M.
+    exists (qmag r). rewrite <- (isq_false_VN r Ir). auto.
+Qed.
+
+Theorem prod_numbers nl : Forall exact nl ->
+  exists r, array_prod ndims (nvals nl) = Ok (VS (VN r))
+    /\ toQ r == Qprod (map toQ nl) /\ canonical r /\ exact r.
+Proof.
+  intros E. destruct (prod_spec ndims (map VN nl) (qexact_nums _ E)) as (r & H & _ & M & Cr & Er & Ir).
+  rewrite noq_nums in Ir. rewrite mag_nums in M.
+  exists (qmag r). rewrite <- (isq_false_VN r Ir). auto.
+Qed.
+
+Theorem mean_numbers x l : Forall exact (x :: l) -> Forall canonical (x :: l) ->
+  exists r, array_mean ndims (nvals (x :: l)) = Ok (VS (VN r))
+    /\ toQ r == Qsum (map toQ (x :: l)) / inject_Z (Z.of_nat (List.length (x :: l)))
+    /\ canonical r /\ exact r.
+Proof.
+  intros E Cn.
+  destruct (mean_spec ndims (VN x) (map VN l) (vzero ndims) (udim_nums (x :: l))
+              (repeat_length _ _) (qexact_nums _ E) (qcanon_nums _ Cn)) as (r & H & _ & M & Cr & Er & Ir).
+  change (VN x :: map VN l) with (map VN (x :: l)) in *.
+  rewrite noq_nums in Ir. rewrite mag_nums, map_length in M.
+  exists (qmag r). rewrite <- (isq_false_VN r Ir). auto.
+Qed.
+
+(* an integral result is delivered as an int *)
+Lemma integral_as_int r z : canonical r -> exact r -> toQ r == inject_Z z -> r = NInt z.
+Proof. intros Cn E H. apply canonical_toQ_eq; try assumption; try exact I; reflexivity. Qed.
+
+Theorem size_spec (l : list value) : array_size l = Ok (vint (Z.of_nat (List.length l))).
+Proof. reflexivity. Qed.
+
+End Numbers.
+
+(* ====================================================================================== *)
+(* 6. comprehensions                                                                       *)
+Section CompProofs.
+Variables (V E : Type).
+Variable setv : string -> V -> E -> E.
+Variable as_arr : V -> option (list V).
+Variable blike : V -> option bool.
+Local Open Scope nat_scope.
+
+Notation bind_at := (bind_at V E setv).
+Notation bind_row := (bind_row V E setv).
+Notation eval_conds := (eval_conds V E blike).
+Notation comp_loop := (comp_loop V E setv blike).
+Notation comp_rows := (comp_rows V E setv blike).
+Notation comp_spec := (comp_spec V E setv blike).
+Notation min_len := (min_len V).
+Notation row_at := (row_at V).
+
+Lemma min_len_cons a r :
+  min_len (a :: r) = match r with [] => List.length a | _ => Nat.min (List.length a) (min_len r) end.
+Proof. destruct r; reflexivity. Qed.
+
+Lemma bind_at_lt names : forall arrs i env, List.length names = List.length arrs -> i < min_len arrs ->
+  bind_at i names arrs env = (bind_row names (row_at arrs i) env, false).
+Proof.
+  induction names as [|n ns IH]; intros [|a rest] i env L H; try discriminate; [reflexivity|].
+  rewrite min_len_cons in H.
+  assert (Ha : i < List.length a) by (destruct rest; lia).
+  destruct (nth_error a i) as [v|] eqn:N; [|apply nth_error_None in N; lia].
+  cbn [Arrays.bind_at]. rewrite N. unfold Arrays.row_at. cbn [flat_map]. rewrite N. cbn [app Arrays.bind_row].
+  destruct rest as [|b rest'].
+  - destruct ns; [reflexivity|discriminate].
+  - apply IH; [cbn in L |- *; lia|lia].
+Qed.
+
+Lemma bind_at_short names : forall arrs i env, List.length names = List.length arrs ->
+  (exists a, In a arrs /\ List.length a <= i) -> snd (bind_at i names arrs env) = true.
+Proof.
+  induction names as [|n ns IH]; intros [|a rest] i env L (a0 & Hin & Hle); try discriminate.
+  - destruct Hin.
+  - cbn [Arrays.bind_at]. destruct (nth_error a i) as [v|] eqn:N; [|reflexivity].
+    apply IH; [cbn in L; lia|]. destruct Hin as [<-|Hin]; [|eauto].
+    exfalso. assert (nth_error a i <> None) by congruence. apply nth_error_Some in H. lia.
+Qed.
+
+Lemma min_len_witness arrs : arrs <> [] -> exists a, In a arrs /\ List.length a <= min_len arrs.
+Proof.
+  induction arrs as [|a r IH]; intro H; [contradiction|]. rewrite min_len_cons.
+  destruct r as [|b r'].
+  - exists a. split; [left; reflexivity|lia].
+  - destruct (IH ltac:(discriminate)) as (a0 & Hin & Hle).
+    destruct (Nat.le_ge_cases (List.length a) (min_len (b :: r'))).
+    + exists a. split; [left; reflexivity|lia].
+    + exists a0. split; [right; exact Hin|lia].
+Qed.
+
+Lemma comp_loop_S f i names arrs conds body env :
+  comp_loop (S f) i names arrs conds body env =
+  let '(env1, exhausted) := bind_at i names arrs env in
+  if exhausted then Ok ([], env1)
+  else match eval_conds conds env1 true with
+       | Raise x => Raise x
+       | Ok (ok, env2) =>
+           if ok then
+             match body env2 with
+             | Raise x => Raise x
+             | Ok (v, env3) =>
+                 match comp_loop f (S i) names arrs conds body env3 with
+                 | Raise x => Raise x
+                 | Ok (vs, envf) => Ok (v :: vs, envf)
+                 end
+             end
+           else comp_loop f (S i) names arrs conds body env2
+       end.
+Proof. reflexivity. Qed.
+
+Lemma comp_loop_rows names arrs conds body :
+  List.length names = List.length arrs -> names <> [] ->
+  forall k i env, i + k = min_len arrs ->
+  comp_loop (S k) i names arrs conds body env =
+  match comp_rows names conds body (map (row_at arrs) (seq i k)) env with
+  | Raise x => Raise x
+  | Ok (vs, envf) => Ok (vs, fst (bind_at (min_len arrs) names arrs envf))
+  end.
+Proof.
+  intros L Hn. induction k as [|k IH]; intros i env Hik; rewrite comp_loop_S.
+  - assert (X : snd (bind_at i names arrs env) = true).
+    { apply bind_at_short; [exact L|]. replace i with (min_len arrs) by lia.
+      apply min_len_witness. destruct arrs; [destruct names; [contradiction|discriminate]|discriminate]. }
+    replace (min_len arrs) with i by lia. cbn [seq map Arrays.comp_rows].
+    destruct (bind_at i names arrs env) as [env1 ex]. cbn in X. subst ex. reflexivity.
+  - rewrite (bind_at_lt names arrs i env L) by lia.
+    cbn [seq map Arrays.comp_rows].
+    destruct (eval_conds conds (bind_row names (row_at arrs i) env) true) as [[ok env2]|]; [|reflexivity].
+    destruct ok.
+    + destruct (body env2) as [[v env3]|]; [|reflexivity].
+      rewrite (IH (S i) env3) by lia.
+      destruct (comp_rows names conds body (map (row_at arrs) (seq (S i) k)) env3) as [[vs envf]|]; reflexivity.
+    + apply IH. lia.
+Qed.
+
+Lemma eval_list_length gs : forall env vs env1,
+  eval_list V E gs env = Ok (vs, env1) -> List.length vs = List.length gs.
+Proof.
+  induction gs as [|g r IH]; intros env vs env1 H; cbn [eval_list] in H.
+  - injection H as <- _. reflexivity.
+  - destruct (g env) as [[v e1]|]; [|discriminate].
+    destruct (eval_list V E r e1) as [[vs' e2]|] eqn:R; [|discriminate].
+    injection H as <- _. cbn. f_equal. eapply IH. exact R.
+Qed.
+
+Lemma all_arrays_length vs : forall arrs, all_arrays V as_arr vs = Some arrs -> List.length arrs = List.length vs.
+Proof.
+  induction vs as [|v r IH]; intros arrs H; cbn [all_arrays] in H.
+  - injection H as <-. reflexivity.
+  - destruct (as_arr v); [|discriminate]. destruct (all_arrays V as_arr r); [|discriminate].
+    injection H as <-. cbn. f_equal. apply IH. reflexivity.
+Qed.
+
+Theorem eval_comprehension_spec body names gens conds env :
+  names <> [] -> List.length names = List.length gens ->
+  eval_comprehension V E setv as_arr blike body names gens conds env =
+  match eval_list V E gens env with
+  | Raise x => Raise x
+  | Ok (vs, env1) =>
+      match all_arrays V as_arr vs with
+      | None => Raise EvalError
+      | Some arrs => comp_spec body names arrs conds env1
+      end
+  end.
+Proof.
+  intros Hn L. unfold eval_comprehension. destruct names as [|n ns]; [contradiction|].
+  destruct (eval_list V E gens env) as [[vs env1]|] eqn:G; [|reflexivity].
+  destruct (all_arrays V as_arr vs) as [arrs|] eqn:A; [|reflexivity].
+  assert (L2 : List.length (n :: ns) = List.length arrs).
+  { rewrite (all_arrays_length _ _ A), (eval_list_length _ _ _ _ G). exact L. }
+  rewrite (comp_loop_rows (n :: ns) arrs conds body L2 Hn (min_len arrs) 0 env1) by reflexivity.
+  reflexivity.
+Qed.
+
+Theorem comp_no_generator body gens conds env :
+  eval_comprehension V E setv as_arr blike body [] gens conds env = Raise EvalError.
+Proof. reflexivity. Qed.
+
+Lemma all_arrays_none vs : Exists (fun v => as_arr v = None) vs -> all_arrays V as_arr vs = None.
+Proof.
+  induction 1 as [v r H|v r _ IH]; cbn [all_arrays].
+  - rewrite H. reflexivity.
+  - rewrite IH. destruct (as_arr v); reflexivity.
+Qed.
+
+Theorem comp_non_array body names gens conds env vs env1 :
+  names <> [] -> eval_list V E gens env = Ok (vs, env1) -> Exists (fun v => as_arr v = None) vs ->
+  eval_comprehension V E setv as_arr blike body names gens conds env = Raise EvalError.
+Proof.
+  intros Hn G X. unfold eval_comprehension. destruct names; [contradiction|].
+  rewrite G, (all_arrays_none vs X). reflexivity.
+Qed.
+
+(* ---- evaluators that only read the environment *)
+Notation pure := (pure V E).
+Notation conds_pure := (conds_pure V E blike).
+Notation filter_map_pure := (filter_map_pure V E blike).
+Notation row_envs := (row_envs V E setv).
+
+Lemma eval_conds_pure cs : forall env ok,
+  eval_conds (map pure cs) env ok =
+  match conds_pure cs env ok with Ok b => Ok (b, env) | Raise x => Raise x end.
+Proof.
+  induction cs as [|c r IH]; intros env ok; cbn [map Arrays.eval_conds Arrays.conds_pure]; [reflexivity|].
+  unfold Arrays.pure at 1. destruct (c env) as [v|]; [|reflexivity].
+  destruct (blike v); [apply IH|reflexivity].
+Qed.
+
+Lemma last_cons {A} (a : A) l d : last (a :: l) d = last l a.
+Proof. revert a. induction l as [|b l IH]; intro a; [reflexivity|]. cbn [last] in *. destruct l; [reflexivity|apply IH]. Qed.
+
+Theorem comp_rows_pure names cs body rs : forall env,
+  comp_rows names (map pure cs) (pure body) rs env =
+  match filter_map_pure cs body (row_envs names rs env) with
+  | Ok vs => Ok (vs, last (row_envs names rs env) env)
+  | Raise x => Raise x
+  end.
+Proof.
+  induction rs as [|r rest IH]; intro env; [reflexivity|].
+  cbn [Arrays.comp_rows Arrays.row_envs Arrays.filter_map_pure]. rewrite eval_conds_pure, last_cons.
+  set (e1 := bind_row names r env).
+  destruct (conds_pure cs e1 true) as [ok|]; [|reflexivity].
+  destruct ok.
+  - unfold Arrays.pure at 1. destruct (body e1) as [v|]; [|reflexivity].
+    rewrite IH. destruct (filter_map_pure cs body (row_envs names rest e1)); reflexivity.
+  - apply IH.
+Qed.
+
+Theorem filter_map_success cs body envs (keep : E -> bool) (bval : E -> V) :
+  (forall e, In e envs -> conds_pure cs e true = Ok (keep e) /\ (keep e = true -> body e = Ok (bval e))) ->
+  filter_map_pure cs body envs = Ok (map bval (filter keep envs)).
+Proof.
+  induction envs as [|e rest IH]; intro H; [reflexivity|].
+  cbn [Arrays.filter_map_pure filter]. destruct (H e (or_introl eq_refl)) as [Hc Hb]. rewrite Hc.
+  assert (IH' := IH (fun e' I' => H e' (or_intror I'))).
+  destruct (keep e).
+  - rewrite (Hb eq_refl), IH'. reflexivity.
+  - exact IH'.
+Qed.
+
+(* every condition is evaluated; the result is the conjunction *)
+Lemma conds_pure_ok cs e : forall ok bs,
+  Forall2 (fun c b => exists v, c e = Ok v /\ blike v = Some b) cs bs ->
+  conds_pure cs e ok = Ok (ok && forallb (fun b => b) bs)%bool.
+Proof.
+  induction cs as [|c r IH]; intros ok bs F; inversion F as [|? b ? bs' (v & Hv & Hb) F']; subst.
+  - rewrite andb_true_r. reflexivity.
+  - cbn [Arrays.conds_pure forallb]. rewrite Hv, Hb, (IH _ _ F'), andb_assoc. reflexivity.
+Qed.
+
+(* a condition that is neither 0 nor 1 raises, whatever the earlier conditions gave *)
+Lemma conds_pure_nonbool pre c post e v : forall ok bs,
+  Forall2 (fun c b => exists v, c e = Ok v /\ blike v = Some b) pre bs ->
+  c e = Ok v -> blike v = None ->
+  conds_pure (pre ++ c :: post) e ok = Raise EvalError.
+Proof.
+  induction pre as [|p r IH]; intros ok bs F Hv Hb; inversion F as [|? b ? bs' (v' & Hv' & Hb') F']; subst.
+  - cbn [app Arrays.conds_pure]. rewrite Hv, Hb. reflexivity.
+  - cbn [app Arrays.conds_pure]. rewrite Hv', Hb'. eapply IH; eassumption.
+Qed.
+
+End CompProofs.
+
+(* ====================================================================================== *)
+(* 7. the statements of Properties/C12.v, assembled                                        *)
+Local Open Scope Z_scope.
+
+Theorem int_range_all lo hi :
+  int_range lo hi = map (fun k => Z.add lo (Z.of_nat k)) (seq 0 (Z.to_nat (hi - lo + 1)))
+  /\ (hi < lo -> int_range lo hi = [])
+  /\ List.length (int_range lo hi) = Z.to_nat (hi - lo + 1)
+  /\ (forall i, (i < Z.to_nat (hi - lo + 1))%nat -> nth_error (int_range lo hi) i = Some (lo + Z.of_nat i))
+  /\ (forall x, In x (int_range lo hi) <-> lo <= x <= hi)
+  /\ StronglySorted Z.lt (int_range lo hi).
+Proof.
+  split; [apply int_range_spec|]. split; [apply int_range_empty|]. split; [apply int_range_length|].
+  split; [apply int_range_nth|]. split; [apply int_range_In|apply int_range_sorted].
+Qed.
+
+Theorem ka_range_errors lo hi step :
+  (toQ hi < toQ lo -> ka_range lo hi step = Raise FunctionArgError)%Q
+  /\ (toQ step <= 0 -> ka_range lo hi step = Raise FunctionArgError)%Q.
+Proof. split; [apply ka_range_bad_bounds|apply ka_range_bad_step]. Qed.
+
+Theorem empty_cases ndims :
+  array_sum ndims [] = Ok (vint 0) /\ array_prod ndims [] = Ok (vint 1) /\ array_size [] = Ok (vint 0)
+  /\ array_mean ndims [] = Raise FunctionArgError /\ array_median ndims [] = Raise FunctionArgError
+  /\ array_min ndims [] = Raise FunctionArgError /\ array_max ndims [] = Raise FunctionArgError
+  /\ (forall x, in_array ndims x [] = Ok (vint 0))
+  /\ vararg_ext ndims true [] = Raise FunctionArgError /\ vararg_ext ndims false [] = Raise FunctionArgError.
+Proof. repeat split. Qed.
+
+Theorem mixed_dimensions ndims p pre x post d : udim ndims d (p :: pre) -> qdim ndims x <> d ->
+  let l := map VS ((p :: pre) ++ x :: post) in
+  array_sum ndims l = Raise IncompatibleQuantitiesError
+  /\ array_mean ndims l = Raise IncompatibleQuantitiesError
+  /\ array_min ndims l = Raise IncompatibleQuantitiesError
+  /\ array_max ndims l = Raise IncompatibleQuantitiesError
+  /\ array_median ndims l = Raise IncompatibleQuantitiesError.
+Proof.
+  intros D H l. split; [apply (sum_mixed ndims p pre x post d D H)|].
+  split; [apply (mean_mixed ndims p pre x post d D H)|].
+  split; [apply (min_mixed ndims p pre x post d D H)|].
+  split; [apply (max_mixed ndims p pre x post d D H)|apply (median_mixed ndims p pre x post d D H)].
+Qed.
+
+Theorem sort_all ndims l d : udim ndims d l ->
+  ka_sort ndims (map VS l) = Ok (map VS (qsort l))
+  /\ Permutation l (qsort l) /\ StronglySorted lem (qsort l)
+  /\ (forall q, filter (same_mag q) (qsort l) = filter (same_mag q) l).
+Proof.
+  intro D. split; [apply (sort_ok ndims l d D)|]. split; [apply qsort_perm|].
+  split; [apply qsort_sorted|]. intro q. apply qsort_stable.
+Qed.
